@@ -44,3 +44,17 @@ reg("C19", "fault_enumeration", "exhaustive enumeration of well-formed files, wr
     "independent reader) or the call must raise; handles opened by the function must be closed on every path (counting wrapper "
     "around builtins.open).", "The reference writer follows verde's documented header convention; all-blank files accept either outcome.",
     "DESIGN.md section 5, C19")
+reg("C09", MC, "bounded exhaustive enumeration of point placements on a block layout with member-identifying (power-of-two) data",
+    "All multisets of up to 3 (thorough 4) occupied sites of a 2x2 (thorough also 3x2) block layout, in two input orders, x reductions "
+    "x components x weights x spacing/shape x given/inferred region x centre/reduced coordinates x dropped/kept extra coordinate x 1-D/2-D "
+    "input. Data are distinct powers of two, so each reduced value identifies exactly which points and which weights entered it; the "
+    "oracle groups with a Python dict and reduces in exact rational arithmetic.",
+    "pandas groupby trusted; quick crosses the data-path axis and the coordinate-path axis separately (both in full), thorough crosses them.",
+    "DESIGN.md section 5, C09")
+reg("C10", MC, "bounded exhaustive enumeration of block populations and variance vectors against exact rational weights",
+    "BlockMean.filter on every placement of <= 3 (4) points plus every 5-point placement with populations (2,3),(3,2),(2,2,1) x components x "
+    "weights x uncertainty x region; variance_to_weights on all 4680 vectors of length <= 4 over {0, 1e-16, 1e-15, 1e-14, .2, 1, 2, NaN} in "
+    "array / tuple / 2-D / read-only / list form. Means, the three weighting rules, (0,1] range with a maximum of exactly 1, shape "
+    "preservation and byte-wise input immutability are compared with exact arithmetic.",
+    "Unweighted block variance may be ddof=0 or ddof=1, consistently (pandas-version dependent; the statement does not fix it).",
+    "DESIGN.md section 5, C10")
